@@ -526,6 +526,17 @@ def single_op_builders(rng, tier):
         nd = len(sh)
         for _ in range(40 if tier == "thorough" else 12):
             prog([sh], "getitem", {"index": progs.rand_index(rng, sh)})
+        # integer-array indices on the first axis in every carrier (ndarray of several dtypes, Python list, integer tensor; alone or in a tuple): repeated entries,
+        # and entries that differ but address the same item (k and k - d)
+        d0 = sh[0]
+        if d0 >= 2:
+            for vals in ([0, -d0, 1], [d0 - 1, -1], [1, 1 - d0, 0, 0], [-1, 0], [0, 0]):
+                for carrier in ({}, {"as_list": True}, {"dtype": "int32"}, {"as_tensor": True}):
+                    for lone in (True, False):
+                        e = dict({"array": list(vals), "shape": [len(vals)]}, **carrier)
+                        if lone:
+                            e["lone"] = True
+                        prog([sh], "getitem", {"index": [e]})
         prog([sh], "transpose", {"axes": None})
         for p in itertools.permutations(range(nd)):
             prog([sh], "transpose", {"axes": list(p)})
@@ -654,7 +665,8 @@ def run(rep, work, tier, seed, props, replay=None):
         idx = list(range(info["n"])) if replay is None else [replay["catalog_index"]]
         seeds = [seed, seed + 1, seed + 2] if tier == "thorough" else [seed]
         # operand memory layouts: 0 = C-contiguous, 1 = Fortran-ordered, 2 = negative strides, 3 = strided view of a wider buffer
-        layouts = [0, 1, 2, 3] if tier == "thorough" else [0, 1 + seed % 3]
+        # 4 / 5 = two operands over ONE ndarray object (two copy=False tensors / a tensor and its own .data): gradients are per tensor, not per array
+        layouts = [0, 1, 2, 3, 4, 5] if tier == "thorough" else [0, 1 + seed % 3, 4, 5]
         if replay is not None:
             layouts, seeds = [replay.get("layout", 0)], [replay.get("seed", seed)]
         tasks = [{"index": i, "mode": "vjp", "seed": sd, "layout": lay} for sd in seeds for lay in layouts for i in idx]
@@ -666,6 +678,8 @@ def run(rep, work, tier, seed, props, replay=None):
         for t, r in zip(flat, cres):
             if "harness_error" in r:
                 cat_bad.append({"kind": "operation catalogue: %s raised: %s" % (r["label"], r["harness_error"].strip().split("\n")[-1][:200]), "catalog_index": t["index"], "seed": t["seed"], "layout": t["layout"]})
+                continue
+            if r.get("skipped") or (t["layout"] in (4, 5) and r["label"].split("(")[0] in ("maximum", "minimum")):     # (equal operands: a tie, no derivative)
                 continue
             cat_n += 1
             cat_fam[r["family"]] = cat_fam.get(r["family"], 0) + 1
